@@ -397,7 +397,7 @@ def proof_coverage(proof):
 # ----------------------------------------------------------------------------- generic differential stage
 
 def differential(ctx, name, proof, cases, line_of, oracle, norm_impl=None, norm_model=None, nontrivial=None,
-                 shrink_candidates=None, more_cases=None, correspondence_name="", model_applies=None):
+                 shrink_candidates=None, more_cases=None, correspondence_name="", model_applies=None, model_line_of=None):
     """Stages C, D, E and the verdict logic shared by the package-level checks.
     cases: list of case objects; line_of(case) -> protocol line; oracle(case, impl_out) -> None | (key, msg).
     Returns a dict with counts for the evidence."""
@@ -414,7 +414,7 @@ def differential(ctx, name, proof, cases, line_of, oracle, norm_impl=None, norm_
     else:
         corr_broken = "harness does not build against the current tree:\n" + logg[-1500:]
     if okm:
-        model_out, err = run_lines(model, lines)
+        model_out, err = run_lines(model, [model_line_of(c) for c in cases] if model_line_of else lines)
         if err:
             corr_broken, model_out = (corr_broken or "") + " model run failed: " + err, None
     else:
@@ -454,8 +454,8 @@ def differential(ctx, name, proof, cases, line_of, oracle, norm_impl=None, norm_
         for c, a, b in zip(cases, impl_out, model_out):
             if model_applies is not None and not model_applies(c):
                 continue
-            a2 = norm_impl(a) if norm_impl else a
-            b2 = norm_model(b) if norm_model else b
+            a2 = norm_impl(c, a) if norm_impl else a
+            b2 = norm_model(c, b) if norm_model else b
             if a2 != b2:
                 mism.append((c, a, b))
     ctx.say("cases=%d oracle-fail-classes=%s mismatches=%d" % (len(cases), {k: len(v) for k, v in oracle_fail.items()}, len(mism)))
